@@ -385,3 +385,74 @@ func TestC13_CloseDuringSlowList(t *testing.T) {
 		}, "close_during_slow_list", "timers_"+timerMode())
 	})
 }
+
+// TestC13_RunsOrStops: "for as long as it runs".  The k-th list fails (any
+// failure kind, any error value); afterwards the controller must either have
+// stopped (C14 says it does) or still be relisting.  A controller that stays
+// up - Done() open, cache served - while no further List call is ever made
+// has stopped relisting while running.
+func TestC13_RunsOrStops(t *testing.T) {
+	rapid.Check(t, func(t *rapid.T) {
+		P := time.Duration(rapid.IntRange(1500, 12000).Draw(t, "periodUs")) * time.Microsecond
+		L := time.Duration(float64(P) * float64(rapid.IntRange(0, 200).Draw(t, "latencyPct")) / 100)
+		fault, flavour := drawListFault(t)
+		k := rapid.IntRange(1, 4).Draw(t, "k")
+		a := newFakeAPI()
+		a.put("a", "p", nil)
+		a.listErr = flavour
+		a.listLatency = func(int) time.Duration { return L }
+		a.listFaults[k] = fault
+		ctx, cancel := context.WithCancel(context.Background())
+		defer cancel()
+		b := kcache.NewBuilder().Context(ctx).Log(newPlog(false, 1)).Client(a)
+		b.Lister().RefreshPeriod(P)
+		root, err := b.Create()
+		if err != nil {
+			t.Fatalf("create: %v", err)
+		}
+		defer func() { go root.Close() }()
+		returned := func() int {
+			a.mu.Lock()
+			defer a.mu.Unlock()
+			n := 0
+			for _, c := range a.listCalls {
+				if c.returned {
+					n++
+				}
+			}
+			return n
+		}
+		outcome := ""
+		per := time.Duration(1.1*float64(P)) + L
+		check := func(bound time.Duration) bool {
+			deadline := time.Now().Add(bound)
+			for time.Now().Before(deadline) {
+				if isClosedCh(root.Done()) {
+					outcome = "stopped"
+					return true
+				}
+				if returned() >= k+2 {
+					outcome = "kept relisting"
+					return true
+				}
+				time.Sleep(P / 4)
+			}
+			return false
+		}
+		bound := 10*per*time.Duration(k+2) + 2*time.Second
+		if !check(bound) && !check(3*bound) {
+			_, dump := libGoroutines()
+			t.Fatalf("C13 violation: WEDGE: period %v, latency %v: list #%d failed (%s); the controller is still running (Done() open, Error() = %v) but only %d List calls were ever made: relisting stopped while the controller runs\n%s",
+				P, L, k, faultLabel(fault, flavour), root.Error(), returned(), dump)
+		}
+		if !closeBounded(root) {
+			t.Fatalf("C13 violation: WEDGE: Close() did not return after the failed list")
+		}
+		if n, dump := waitNoLibGoroutines(wedgeBound); n != 0 {
+			t.Fatalf("C13 violation: %d library goroutines left:\n%s", n, dump)
+		}
+		statCase("C13", hashString(fmt.Sprintf("runsorstops %v %v %s %d", P, L, faultLabel(fault, flavour), k)), true, func() interface{} {
+			return map[string]interface{}{"mode": "failed list: stopped or still relisting", "period": P.String(), "list_latency": L.String(), "fault": faultLabel(fault, flavour), "failing_list": k, "outcome": outcome}
+		}, "runs_or_stops", "outcome_"+outcome, faultLabel(fault, flavour))
+	})
+}
